@@ -72,6 +72,10 @@ pub struct Case {
     pub sends: Vec<SendSpec>,
     /// attempt a third connection on this transit gate
     pub third: Option<u16>,
+    /// a second, small simulation: a module requests a delayed send on a gate that is still unconnected and connects
+    /// it (directly or through a relay gate, in either orientation) before the message departs; (delay us, flipped, relay)
+    #[serde(default)]
+    pub late_connect: Option<(u16, bool, bool)>,
 }
 
 pub struct C08;
@@ -153,7 +157,76 @@ fn walk(g: &GateRef) -> Option<Vec<String>> {
     Some(g.path_iter()?.take(64).map(|c| c.endpoint.path().as_str().to_string()).collect())
 }
 
+struct LateSender {
+    delay_us: u16,
+    flipped: bool,
+    relay: bool,
+}
+impl Module for LateSender {
+    fn at_sim_start(&mut self, _: usize) {
+        let me = current().gate("out", 0).expect("own gate");
+        // the send is requested first, the chain is built afterwards (still long before the departure)
+        send_in(Message::default().kind(2).id(7), me.clone(), du(self.delay_us as u128 * 1_000 + 1_000));
+        let g = des::net::globals();
+        let far = g.get(&ObjectPath::from("late_b")).expect("peer").gate("in", 0).expect("peer gate");
+        let hops: Vec<(GateRef, GateRef)> = if self.relay {
+            let mid = g.get(&ObjectPath::from("late_r")).expect("relay").gate("mid", 0).expect("relay gate");
+            vec![(me.clone(), mid.clone()), (mid, far)]
+        } else {
+            vec![(me, far)]
+        };
+        for (a, b) in hops {
+            if self.flipped {
+                b.connect(a, None);
+            } else {
+                a.connect(b, None);
+            }
+        }
+    }
+    fn handle_message(&mut self, msg: Message) {
+        net::log("late-recv-at-sender", msg.header().id as i64, 0);
+    }
+}
+struct LatePeer;
+impl Module for LatePeer {
+    fn handle_message(&mut self, msg: Message) {
+        let h = msg.header();
+        let gate = h.last_gate.as_ref().map(|g| g.path().as_str().to_string()).unwrap_or_default();
+        net::log(&format!("late-recv via {gate}"), h.id as i64, 0);
+    }
+}
+
+/// The delayed send whose chain is completed between the request and the departure.
+fn late_connect_scenario(delay_us: u16, flipped: bool, relay: bool) -> Result<(), Failure> {
+    net::log_clear();
+    let mut sim = Sim::new(());
+    sim.node("late_a", LateSender { delay_us, flipped, relay });
+    sim.node("late_r", LatePeer);
+    sim.node("late_b", LatePeer);
+    let _ = sim.gate("late_a", "out");
+    let _ = sim.gate("late_r", "mid");
+    let _ = sim.gate("late_b", "in");
+    let rt = Builder::seeded(3).quiet().max_itr(1_000).build(sim.freeze());
+    let res = rt.run();
+    let log = net::log_take();
+    let ok = res.is_ok();
+    drop(res);
+    vensure!(ok, "run-returned-error", "late-connect scenario: run() returned an error");
+    let want_t = delay_us as u128 * 1_000 + 1_000;
+    let arrivals: Vec<&Rec> = log.iter().filter(|r| r.kind.starts_with("late-recv")).collect();
+    vensure!(
+        arrivals.len() == 1 && arrivals[0].path == "late_b" && arrivals[0].now == want_t && arrivals[0].kind == "late-recv via late_b.in",
+        if arrivals.is_empty() { "message-lost" } else { "delivered-to-wrong-module" },
+        "a send_in requested on a still unconnected gate, with the chain (relay: {relay}, flipped: {flipped}) connected before the departure at {want_t} ns, was delivered as {:?}; expected once at late_b via late_b.in at {want_t} ns",
+        arrivals.iter().map(|r| (r.path.clone(), r.kind.clone(), r.now)).collect::<Vec<_>>()
+    );
+    Ok(())
+}
+
 pub fn run_case(case: &Case) -> Result<(bool, Vec<&'static str>), Failure> {
+    if let Some((d, flipped, relay)) = case.late_connect {
+        late_connect_scenario(d, flipped, relay)?;
+    }
     let k = case.gates.len().saturating_sub(1);
     if k == 0 {
         return Ok((false, vec!["degenerate"]));
@@ -492,6 +565,9 @@ pub fn run_case(case: &Case) -> Result<(bool, Vec<&'static str>), Failure> {
     if !case.repeats.is_empty() {
         labels.push("repeated-connect");
     }
+    if case.late_connect.is_some() {
+        labels.push("chain-connected-between-send-request-and-departure");
+    }
     if slots.windows(2).any(|w| w[0] == w[1]) {
         labels.push("simultaneous-opposite-traffic");
     }
@@ -506,7 +582,7 @@ impl Prop for C08 {
         "proptest: chains of 1..8 (quick) / 1..16 (thorough) hops over 1..17 modules (gates may share modules, gates taken from clusters of size 1..3), \
          built by one connect call per hop in a generated permutation and orientation plus repeated calls in either orientation, channels (none / \
          latency / bitrate+latency) on a generated subset of hops, sends from both endpoints with send() and send_in() (also simultaneously in opposite directions; \
-         some followed at once by a second message that has to wait in the queueing channels: that one is checked for exactly-once delivery, module, gate and header only), an attempted \
+         some followed at once by a second message that has to wait in the queueing channels: that one is checked for exactly-once delivery, module, gate and header only), a delayed send requested before its chain is connected (second small simulation), an attempted \
          third connection on a transit gate under catch_unwind. Oracle: exactly one delivery per send at the owner of the far endpoint at send time + \
          sum of per-hop (len*8/bitrate + latency); header sender/receiver ids and last_gate; per-hop probes in chain order at the cumulative times; \
          gate kinds, path_iter from both ends (exact mirror), next_gate, path_end; third peer rejected with the documented panic and chain intact. \
@@ -547,9 +623,11 @@ impl Prop for C08 {
                     proptest::collection::vec(rep.clone(), 0..3),
                     proptest::collection::vec(send.clone(), 0..5),
                     proptest::option::weighted(0.4, any::<u16>()),
+                    proptest::option::weighted(0.2, (any::<u16>(), any::<bool>(), any::<bool>())),
                 )
             })
-            .prop_map(|(modules, gates, order, first, repeats, sends, third)| Case {
+            .prop_map(|(modules, gates, order, first, repeats, sends, third, late_connect)| Case {
+                late_connect,
                 modules,
                 gates,
                 order,
